@@ -30,12 +30,13 @@ def isQuery : Op → Bool
 
 /-- what is recorded about one returned call: its ghost index `k` is a length of the application order;
     a query's answer is computed from the facts *and rules* after the first `k` applications; a write
-    sits at position `k-1` of the application order -/
+    sits at position `k-1` of the application order (a delete that reports 0 removed tuples may have been
+    filtered out before being applied — unknown relation — and has no effect either way) -/
 def EntryOk (applied : List (Tid × Op)) (t : Tid) (e : Op × Out × Nat) : Prop :=
   e.2.2 ≤ applied.length ∧
   ((∀ r, e.1 = .query r → e.2.1 = .rows (replay (applied.take e.2.2) r)) ∧
    (∀ v, e.1 = .queryV v → e.2.1 = .rows (evalView (replay (applied.take e.2.2)) (replayR (applied.take e.2.2)) v))) ∧
-  (isWrite e.1 = true → 1 ≤ e.2.2 ∧ applied[e.2.2 - 1]? = some (t, e.1))
+  (isWrite e.1 = true → e.2.1 ≠ .del 0 → 1 ≤ e.2.2 ∧ applied[e.2.2 - 1]? = some (t, e.1))
 
 theorem EntryOk.snoc {applied : List (Tid × Op)} {t : Tid} {e : Op × Out × Nat} (x : Tid × Op)
     (h : EntryOk applied t e) : EntryOk (applied ++ [x]) t e := by
@@ -45,8 +46,8 @@ theorem EntryOk.snoc {applied : List (Tid × Op)} {t : Tid} {e : Op × Out × Na
     rw [List.take_append_of_le_length h1]; exact h2.1 r hr
   · intro v hv
     rw [List.take_append_of_le_length h1]; exact h2.2 v hv
-  · intro hw
-    obtain ⟨h4, h5⟩ := h3 hw
+  · intro hw hne
+    obtain ⟨h4, h5⟩ := h3 hw hne
     refine ⟨h4, ?_⟩
     rw [List.getElem?_append_left (by omega)]; exact h5
 
@@ -137,16 +138,16 @@ theorem setRel_self (f : Rel → List Tup) (r : Rel) : setRel f r (f r) = f := b
     snapshot carries exactly the facts and the rules after the extended application order -/
 theorem inv_write {st : State} {t : Tid} {op : Op} {rest : List Op} (h : Inv st) (ht : t < st.n)
     (htodo : (st.threads t).todo = op :: rest) (hq : isQuery op = false)
-    (out : Out) (snap' : Rel → List Tup) (sr' : Rules)
+    (out : Out) (snap' : Rel → List Tup) (sr' : Rules) (kn : Rel → Bool)
     (hs : snap' = applyW st.live op) (hr : sr' = applyR st.rules op) :
-    Inv { st with live := applyW st.live op, rules := applyR st.rules op, applied := st.applied ++ [(t, op)], inc := none,
+    Inv { st with live := applyW st.live op, known := kn, rules := applyR st.rules op, applied := st.applied ++ [(t, op)], inc := none,
                   snap := snap', snapRules := sr',
                   threads := setThread st.threads t ((st.threads t).finish out (st.applied ++ [(t, op)]).length) } := by
   have hentry : EntryOk (st.applied ++ [(t, op)]) t (op, out, (st.applied ++ [(t, op)]).length) := by
     refine ⟨Nat.le_refl _, ⟨?_, ?_⟩, ?_⟩
     · intro r hr; subst hr; simp [isQuery] at hq
     · intro v hv; subst hv; simp [isQuery] at hq
-    · intro _; simp
+    · intro _ _; simp
   refine ⟨rfl, ?_, ?_, hs, hr, ?_, ?_⟩
   · rw [replay_snoc, ← h.live]
   · rw [replayR_snoc, ← h.rulesI]
@@ -180,20 +181,20 @@ theorem inv_apply {st : State} {t : Tid} {op : Op} {rest : List Op} {τ : Nat} (
     cases hnw : (insertMem (st.live r) ts).2 with
     | nil =>
       have hsame : (insertMem (st.live r) ts).1 = st.live r := insertMem_nochange ts _ hnw
-      have := inv_write h ht htodo rfl (.ins 0 (ts.length - 0)) st.snap st.snapRules
+      have := inv_write h ht htodo rfl (.ins 0 (ts.length - 0)) st.snap st.snapRules (fun x => if x = r then true else st.known x)
         (by simp [applyW, hsame, setRel_self, h.snap]) (by simp [applyR, h.snapR])
       simpa [applyW, applyR, hnw] using this
     | cons a l =>
-      have := inv_write h ht htodo rfl (.ins (a :: l).length (ts.length - (a :: l).length)) (applyW st.live (.insert r ts)) st.rules rfl rfl
+      have := inv_write h ht htodo rfl (.ins (a :: l).length (ts.length - (a :: l).length)) (applyW st.live (.insert r ts)) st.rules (fun x => if x = r then true else st.known x) rfl rfl
       simpa [applyW, applyR, hnw] using this
   | delete r ts =>
     simp only [applyStep, h.noInc]
     by_cases hrem : (st.live r).length - (deleteMem (st.live r) ts).1.length = 0
     · have hsame := deleteMem_nochange _ _ hrem
-      have := inv_write h ht htodo rfl (.del 0) st.snap st.snapRules
+      have := inv_write h ht htodo rfl (.del 0) st.snap st.snapRules st.known
         (by simp [applyW, hsame, setRel_self, h.snap]) (by simp [applyR, h.snapR])
       simpa [applyW, applyR, hrem] using this
-    · have := inv_write h ht htodo rfl (.del ((st.live r).length - (deleteMem (st.live r) ts).1.length)) (applyW st.live (.delete r ts)) st.rules rfl rfl
+    · have := inv_write h ht htodo rfl (.del ((st.live r).length - (deleteMem (st.live r) ts).1.length)) (applyW st.live (.delete r ts)) st.rules st.known rfl rfl
       simpa [applyW, applyR, hrem] using this
   | query r => simpa [applyStep] using h
   | readc r => simpa [applyStep] using h
@@ -222,16 +223,16 @@ theorem inv_rule {st : State} {t : Tid} {op : Op} {rest : List Op} (h : Inv st) 
   rcases hop with ⟨v, r, hop⟩ | ⟨v, hop⟩ <;> subst hop
   · have := inv_write h ht htodo rfl
       (regOut st.rules v r)
-      st.live (applyR st.rules (.regRule v r)) (by simp [applyW]) rfl
+      st.live (applyR st.rules (.regRule v r)) st.known (by simp [applyW]) rfl
     simpa [ruleStep, applyW, h.noInc] using this
   · simp only [ruleStep]
     cases hl : lookupR v st.rules with
     | none =>
       have hsame : applyR st.rules (.dropRule v) = st.rules := by simp [applyR, filter_of_lookupR_none v st.rules hl]
-      have := inv_write h ht htodo rfl .err st.snap st.snapRules (by simp [applyW, h.snap]) (by rw [hsame, h.snapR])
+      have := inv_write h ht htodo rfl .err st.snap st.snapRules st.known (by simp [applyW, h.snap]) (by rw [hsame, h.snapR])
       simpa [applyW, hsame, h.noInc] using this
     | some cls =>
-      have := inv_write h ht htodo rfl .dropped st.live (applyR st.rules (.dropRule v)) (by simp [applyW]) rfl
+      have := inv_write h ht htodo rfl .dropped st.live (applyR st.rules (.dropRule v)) st.known (by simp [applyW]) rfl
       simpa [applyW, h.noInc] using this
 
 theorem step_inv {st st' : State} {t : Tid} (h : Inv st) (hs : step st t = .ok st') : Inv st' := by
@@ -304,7 +305,13 @@ theorem step_inv {st st' : State} {t : Tid} (h : Inv st) (hs : step st t = .ok s
           · intro r' hr'; cases hr'
           · intro v hv; cases hv
           · simp [isWrite, hemp]
-        · cases hs; exact inv_pc h rfl
+        · split at hs
+          · cases hs
+            refine inv_finish h ht htodo ⟨Nat.le_refl _, ⟨?_, ?_⟩, ?_⟩
+            · intro r' hr'; cases hr'
+            · intro v hv; cases hv
+            · intro _ hne; exact absurd rfl hne
+          · cases hs; exact inv_pc h rfl
       | afterTime τ =>
         simp only [step, htn, htodo, hpc, if_false, opRows] at hs
         cases hs; exact inv_pc h rfl
@@ -412,7 +419,7 @@ theorem step_applied_prefix {st st' : State} {t : Tid} (hs : step st t = .ok st'
         all_goals simp
     | delete r ts =>
       cases hpc : (st.threads t).pc with
-      | start => simp only [step, htn, htodo, hpc, if_false, opRows] at hs; split at hs <;> (cases hs; exact List.prefix_refl _)
+      | start => simp only [step, htn, htodo, hpc, if_false, opRows] at hs; (repeat' split at hs) <;> (cases hs; exact List.prefix_refl _)
       | afterTime τ => simp only [step, htn, htodo, hpc, if_false, opRows] at hs; cases hs; exact List.prefix_refl _
       | afterPersist τ =>
         simp only [step, htn, htodo, hpc, if_false] at hs; cases hs
